@@ -101,7 +101,7 @@ var c12Lead = []string{"\t", "", " ", "    ", "\t\t "}
 var c12LeadCol0 = []string{"", " ", "\t"}
 
 // after-statement alternatives (0 = nothing)
-var c12After = []string{"", " ;c", ";c", " #c", " ;\"", " #;", " ;", "\n", "\n;c", "\n\t# c", "\n  \t",
+var c12After = []string{"", " ;c", ";c", " #c", "#c", "#two words", ";AX", " ;\"", " #;", " ;", "\n", "\n;c", "\n\t# c", "\n  \t",
 	// comment texts with unbalanced brackets and quotes (anything a pre-scan of the raw text could trip over)
 	" ; 1) clear", " ; (see below", " ; dir C:\\osask\\", "\n# ends with a backslash \\", " # 3.5\" disk", " ; it's", " ;[", " ;]", "\n; :-) ((", " ; DB 1,2 ; MOV AX,[BX"}
 var c12Before = []string{"", "\n", ";c\n", "\t# c\n", "  \t\n"}
@@ -109,7 +109,7 @@ var c12Before = []string{"", "\n", ";c\n", "\t# c\n", "  \t\n"}
 func c12Scenario(bound int, name string) *core.Scenario {
 	return &core.Scenario{
 		Name: name, Bound: bound,
-		Rule:   fmt.Sprintf("26 base programs covering every statement kind, re-laid-out token-wise: every layout that deviates from the canonical one in at most %d places (each gap: alternative whitespace; after each statement: 18 comment/blank-line variants (incl. comment texts with unbalanced brackets and quotes); before the first statement: 4; line-ending convention LF/CRLF/CR; final newline absent); output and error class must equal the canonical layout's; non-trivial = canonical assembled, emitted >= 1 byte and the layout deviates", bound),
+		Rule:   fmt.Sprintf("26 base programs covering every statement kind, re-laid-out token-wise: every layout that deviates from the canonical one in at most %d places (each gap: alternative whitespace; after each statement: 21 comment/blank-line variants (comments with and without a blank in front of ';' / '#') (incl. comment texts with unbalanced brackets and quotes); before the first statement: 4; line-ending convention LF/CRLF/CR; final newline absent); output and error class must equal the canonical layout's; non-trivial = canonical assembled, emitted >= 1 byte and the layout deviates", bound),
 		Bounds: map[string]any{"programs": len(c12Programs), "deviation_bound": bound, "gap_alternatives": map[string]any{"optional": c12Opt, "mandatory": c12Mand, "leading": c12Lead}, "after_statement": c12After, "before_first": c12Before, "line_endings": []string{"LF", "CRLF", "CR"}},
 		Build: func(c *core.Chooser) *core.Case {
 			pi := c.Pick("prog", len(c12Programs))
